@@ -1,7 +1,16 @@
 (* correspondence glue for C18: one matrix cell = one real gRPC call against the in-process server *)
 From Coq Require Import NArith String List Bool.
-From V Require Export Base.Hex Auth.Policy.
+From V Require Export Auth.Policy.
+Export ListNotations.
 Open Scope string_scope.
+
+(* indices of the cases on which model and implementation disagree (same function as Base.Hex's;
+   repeated here so that the case files do not load the byte-string library they have no use for) *)
+Fixpoint mismatches {C} (ok : C -> bool) (idx : N) (cs : list C) : list N :=
+  match cs with
+  | [] => []
+  | c :: r => if ok c then mismatches ok (idx + 1) r else idx :: mismatches ok (idx + 1) r
+  end.
 
 Inductive case :=
 (* RPC, request context, and what the server did: through = the call was NOT refused for
